@@ -82,6 +82,29 @@ End Comparators.
 Arguments sk_time {K}. Arguments sk_id {K}. Arguments sk_hash {K}.
 Arguments Build_skey {K}.
 
+(* The same orderings over an application-defined clock type: sorting.SortByClocks calls the Compare
+   METHOD of the entries' clocks ([cc]) and compares the ids itself only when that answers 0.
+   With [cc] = the built-in clock these are the definitions above (Proofs/OrderAnyClock.v). *)
+Section AnyClockDefs.
+  Variable K : Type.
+  Variable kcmp : K -> K -> Z.
+  Variable cc : skey K -> skey K -> Z.
+
+  Definition by_clocks (a b : skey K) (resolve : skey K -> skey K -> cres) : cres :=
+    let diff := cc a b in if diff =? 0 then resolve a b else COk diff.
+  Definition hash_g (a b : skey K) : cres :=
+    by_clocks a b (fun a b => sort_by_clock_id K kcmp a b (fun a b => COk (kcmp (sk_hash a) (sk_hash b)))).
+  Definition lww_g (a b : skey K) : cres :=
+    by_clocks a b (fun a b => sort_by_clock_id K kcmp a b (first K)).
+  Definition fww_g (a b : skey K) : cres :=
+    match lww_g a b with COk r => COk (wrap64 (r * -1)) | CErr => CErr end.
+  Definition compare_g (a b : skey K) : cres := COk (cc a b).
+End AnyClockDefs.
+
+(* a clock type whose Compare looks at the times only (returns -1, 0, 1) *)
+Definition time_only_cc {K} (a b : skey K) : Z :=
+  match Z.compare (sk_time a) (sk_time b) with Lt => -1 | Eq => 0 | Gt => 1 end.
+
 (* sort.SliceStable for fewer than 21 elements is insertionSort(data, 0, n):
      for i := 1; i < n; i++ { for j := i; j > 0 && less(j, j-1); j-- { swap(j, j-1) } }
    [ins] inserts x into the already processed prefix, kept REVERSED (head = last element). *)
